@@ -132,6 +132,11 @@ class Compiler:
         self.opaque = set(opaque_calls)  # dotted names compiled to no-ops (logging, formatting)
         self.used_functions = set()
         self.immutable = set()  # names of input variables that are never written
+        # record values ('rec', cls, {field: rexpr}); an optional record has the Boolean field '?'
+        self.rec_attrs = {}     # (cls, attr) -> fn(fields) -> rexpr | ('primcall', obj, method, [args])
+        self.rec_methods = {}   # (cls, method) -> (obj, method, fn(fields) -> [leading args])
+        self.ctors = {}         # name -> fn(args, kwargs) -> rexpr
+        self.unroll = {}        # object name -> universe size (for loops over dict values)
 
     # ------------------------------------------------------------------ entry
     def compile_call(self, obj, method, args_rexpr, end_label="end"):
@@ -266,8 +271,30 @@ class Compiler:
             if r[0] == "o" and t.id not in ctx.env:
                 ctx.env[t.id] = r  # static alias of a model object
                 return k()
+            if r[0] == "c" and r[1] is None and t.id in ctx.env and ctx.env[t.id][0] == "rec" \
+                    and "?" in ctx.env[t.id][2]:
+                # `x = None` for an optional record: clear the presence flag
+                return Node("assign", target=ctx.env[t.id][2]["?"][1], value=("c", False), next=k())
+            if r[0] == "rec":
+                base = ctx.local(t.id)
+                fields = {f: ("v", f"{base}#{f}") for f in r[2]}
+                ctx.env[t.id] = ("rec", r[1], fields)
+                node = k()
+                for f in reversed(list(r[2])):
+                    if r[2][f] != fields[f]:
+                        node = Node("assign", target=fields[f][1], value=r[2][f], next=node)
+                return node
+            if r[0] in ("c",) and isinstance(r[1], str):
+                ctx.env[t.id] = r  # opaque text / tags stay compile-time constants
+                return k()
             ctx.env[t.id] = ("v", ctx.local(t.id))
             return Node("assign", target=ctx.local(t.id), value=r, next=k())
+        if isinstance(t, ast.Subscript):
+            def after_obj(o):
+                if o[0] != "o":
+                    raise Unsupported("subscript store on dynamic object")
+                return self.expr(t.slice, ctx, lambda key: self.prim_call(o[1], "__setitem__", [key, r], {}, ctx, lambda _: k()))
+            return self.expr(t.value, ctx, after_obj)
         if isinstance(t, ast.Tuple) and r[0] == "tuple" and len(r[1]) == len(t.elts):
             def chain(i):
                 if i == len(t.elts):
@@ -283,6 +310,26 @@ class Compiler:
         raise Unsupported(f"store to {ast.dump(t)}")
 
     def s_AugAssign(self, s, ctx, k):
+        if isinstance(s.target, ast.Attribute) and isinstance(s.op, ast.Add) and isinstance(s.value, ast.List):
+            def after_obj(o):
+                if o[0] != "o":
+                    raise Unsupported("augmented assignment on dynamic object")
+
+                def after_target(tgt):
+                    if tgt[0] != "o":
+                        raise Unsupported("+= on a non-container attribute")
+
+                    def items(i, acc):
+                        if i == len(s.value.elts):
+                            def chain(j):
+                                if j == len(acc):
+                                    return k()
+                                return self.prim_call(tgt[1], "append", [acc[j]], {}, ctx, lambda _: chain(j + 1))
+                            return chain(0)
+                        return self.expr(s.value.elts[i], ctx, lambda r: items(i + 1, acc + [r]))
+                    return items(0, [])
+                return self.e_Attribute(s.target, ctx, after_target)
+            return self.expr(s.target.value, ctx, after_obj)
         load = ast.copy_location(ast.parse(ast.unparse(s.target), mode="eval").body, s)
         binop = ast.copy_location(ast.BinOp(left=load, op=s.op, right=s.value), s)
         return self.s_Assign(ast.copy_location(ast.Assign(targets=[s.target], value=binop), s), ctx, k)
@@ -346,8 +393,50 @@ class Compiler:
         return self.expr(lo, ctx, lambda rlo: self.expr(hi, ctx, lambda rhi: with_bounds_nocopy(rlo, rhi)))
         return self.expr(lo, ctx, lambda rlo: self.expr(hi, ctx, lambda rhi: with_bounds(rlo, rhi)))
 
+    def values_source(self, it):
+        """`list(X.values())` / `X.values()` -> (ast of X, snapshot?)"""
+        snap = False
+        if isinstance(it, ast.Call) and isinstance(it.func, ast.Name) and it.func.id == "list" and len(it.args) == 1:
+            it, snap = it.args[0], True
+        if isinstance(it, ast.Call) and isinstance(it.func, ast.Attribute) and it.func.attr == "values" and not it.args:
+            return it.func.value, snap
+        return None, False
+
     def for_over_snapshot(self, s, ctx, k):
-        raise Unsupported(f"for over {ast.unparse(s.iter)} (line {s.lineno})")
+        src, snap = self.values_source(s.iter)
+        if src is None or not isinstance(s.target, ast.Name):
+            raise Unsupported(f"for over {ast.unparse(s.iter)} (line {s.lineno})")
+
+        def after_obj(o):
+            if o[0] != "o" or o[1] not in self.unroll:
+                raise Unsupported(f"iteration over {ast.unparse(src)}")
+            n = self.unroll[o[1]]
+            cls = self.objects[o[1]]["model"].value_cls
+            mask = ctx.local(f"$snap{next(self.tmp)}")
+            after = Lazy(k)
+
+            def item(i):
+                if i == n:
+                    return after.get()
+                inner = ctx.child(loops=ctx.loops + [(after.get, lambda: item_l[i + 1].get())])
+                inner.env = ctx.env
+                ctx.env[s.target.id] = ("rec", cls, {"i": ("c", i)})
+                body = self.stmts(s.body, inner, lambda: item_l[i + 1].get())
+                if not snap:
+                    # live iteration: a change of size is detected at the next step (RuntimeError)
+                    body0 = body
+                    body = self.prim_call(o[1], "__itercheck__", [("v", mask + "#n")], {}, ctx, lambda _: body0)
+                return Node("branch", test=("bit", ("v", mask), i), t=body, f=item_l[i + 1].get())
+            item_l = [Lazy(lambda i=i: item(i)) for i in range(n + 1)]
+
+            def got(r):
+                # r = rec Snapshot {mask, n}
+                ctx.env["$" + mask] = r
+                nodes = item_l[0].get()
+                nodes = Node("assign", target=mask + "#n", value=r[2]["n"], next=nodes)
+                return Node("assign", target=mask, value=r[2]["mask"], next=nodes)
+            return self.prim_call(o[1], "__snapshot__", [], {}, ctx, got)
+        return self.expr(src, ctx, after_obj)
 
     def s_Break(self, s, ctx, k):
         return ctx.loops[-1][0]()
@@ -459,7 +548,18 @@ class Compiler:
         return self.expr(item.context_expr, ctx, after_cm)
 
     def s_Delete(self, s, ctx, k):
-        return k()  # `del local` only drops a reference
+        subs = [t for t in s.targets if isinstance(t, ast.Subscript)]
+        if not subs:
+            return k()  # `del local` only drops a reference
+        if len(s.targets) != 1:
+            raise Unsupported("multi-target del")
+        t = subs[0]
+
+        def after_obj(o):
+            if o[0] != "o":
+                raise Unsupported("del item of dynamic object")
+            return self.expr(t.slice, ctx, lambda key: self.prim_call(o[1], "__delitem__", [key], {}, ctx, lambda _: k()))
+        return self.expr(t.value, ctx, after_obj)
 
     def s_Global(self, s, ctx, k):
         return k()
@@ -487,6 +587,20 @@ class Compiler:
         def after(r):
             if r[0] == "c" and not (isinstance(r[1], tuple)):
                 return kt() if r[1] else kf()
+            if r[0] == "o":
+                model = self.objects[r[1]].get("model")
+                if model is not None and model.spec("__bool__") is not None:
+                    return self.prim_call(r[1], "__bool__", [], {}, ctx,
+                                          lambda b: Node("branch", test=b, t=kt(), f=kf()))
+                return kt()
+            if r[0] == "rec":
+                pres = r[2].get("?")
+                if pres is None:
+                    tr = self.rec_attrs.get((r[1], "__bool__"))
+                    if tr is None:
+                        return kt()
+                    return Node("branch", test=tr(r[2]), t=kt(), f=kf())
+                return Node("branch", test=pres, t=kt(), f=kf())
             return Node("branch", test=r, t=kt(), f=kf())
         return self.expr(e, ctx, after)
 
@@ -513,6 +627,8 @@ class Compiler:
         g = self.comp_globals().get(e.id)
         if g is not None:
             return k(g)
+        if e.id in ("int", "str", "bool") or e.id in self.ctors or e.id in EXC_PARENTS:
+            return k(("c", ("type", e.id)))
         raise Unsupported(f"unbound name {e.id} in {getattr(ctx, 'qual', '?')} (line {e.lineno})")
 
     def comp_globals(self):
@@ -548,8 +664,34 @@ class Compiler:
                 return k(("meth", o[1], e.attr))
             if o[0] == "c" and isinstance(o[1], tuple) and o[1][0] == "exc":
                 return k(("c", None))  # attributes of a caught exception object (only formatted)
+            if o[0] == "rec":
+                fn = self.rec_attrs.get((o[1], e.attr))
+                if fn is None:
+                    if (o[1], e.attr) in self.rec_methods:
+                        return k(("recmeth", o, e.attr))
+                    raise Unsupported(f"attribute {e.attr} of {o[1]} record (line {e.lineno})")
+                v = fn(o[2])
+                if v[0] == "primcall":
+                    return self.prim_call(v[1], v[2], list(v[3]), {}, ctx, k)
+                return k(v)
             raise Unsupported(f"attribute {e.attr} of dynamic value (line {e.lineno})")
         return self.expr(e.value, ctx, after)
+
+    def e_Subscript(self, e, ctx, k):
+        def after_obj(o):
+            if o[0] == "o":
+                return self.expr(e.slice, ctx, lambda key: self.prim_call(o[1], "__getitem__", [key], {}, ctx, k))
+            if o[0] == "tuple" and isinstance(e.slice, ast.Constant):
+                return k(o[1][e.slice.value])
+            raise Unsupported(f"subscript of dynamic value (line {e.lineno})")
+        return self.expr(e.value, ctx, after_obj)
+
+    def e_List(self, e, ctx, k):
+        def chain(i, acc):
+            if i == len(e.elts):
+                return k(("list", acc))
+            return self.expr(e.elts[i], ctx, lambda r: chain(i + 1, acc + [r]))
+        return chain(0, [])
 
     def e_UnaryOp(self, e, ctx, k):
         if isinstance(e.op, ast.Not):
@@ -573,6 +715,18 @@ class Compiler:
                          lambda a: self.expr(e.comparators[0], ctx, lambda b: self.compare(op, a, b, ctx, k)))
 
     def compare(self, op, a, b, ctx, k):
+        if op in ("is", "isnot") and (a[0] == "rec" or b[0] == "rec"):
+            r, other = (a, b) if a[0] == "rec" else (b, a)
+            if other != ("c", None):
+                raise Unsupported("identity comparison of records")
+            present = r[2].get("?", ("c", True))
+            return k(("not", present) if op == "is" else present)
+        if op in ("in", "notin") and b[0] == "rec":
+            fn = self.rec_attrs.get((b[1], "__contains__"))
+            if fn is None:
+                raise Unsupported(f"`in` on {b[1]} record")
+            r = fn(b[2], a)
+            return k(r if op == "in" else ("not", r))
         if op in ("in", "notin"):
             if b[0] == "o":
                 def res(r):
@@ -610,6 +764,12 @@ class Compiler:
                 def after(o):
                     if o[0] == "o":
                         return self.call_method(ObjRef(o[1]), e.func.attr, args, kwargs, ctx, k)
+                    if o[0] == "rec":
+                        rm = self.rec_methods.get((o[1], e.func.attr))
+                        if rm is None:
+                            raise Unsupported(f"method {e.func.attr} of {o[1]} record (line {e.lineno})")
+                        obj, meth, lead = rm
+                        return self.call_method(ObjRef(obj), meth, list(lead(o[2])) + list(args), kwargs, ctx, k)
                     raise Unsupported(f"method call on dynamic value: {ast.unparse(e)} (line {e.lineno})")
                 return self.expr(e.func.value, ctx, after)
             if isinstance(e.func, ast.Name):
@@ -637,6 +797,14 @@ class Compiler:
 
     def call_name(self, name, args, kwargs, ctx, k, e):
         g = self.comp_globals().get(name)
+        if name in ctx.env and ctx.env[name][0] == "rec":
+            r = ctx.env[name]
+            rm = self.rec_methods.get((r[1], "__call__"))
+            if rm is None:
+                raise Unsupported(f"call of a {r[1]} record")
+            return self.call_method(ObjRef(rm[0]), rm[1], list(rm[2](r[2])) + list(args), kwargs, ctx, k)
+        if name in self.ctors and name not in ctx.env:
+            return k(self.ctors[name](args, kwargs))
         if name in ctx.env and ctx.env[name][0] == "bound":
             _, o, m = ctx.env[name]
             return self.call_method(ObjRef(o), m, args, kwargs, ctx, k)
@@ -649,7 +817,13 @@ class Compiler:
         if name == "len" and len(args) == 1 and args[0][0] == "o":
             return self.prim_call(args[0][1], "__len__", [], {}, ctx, k)
         if name == "isinstance" and len(args) == 2:
-            return k(("isinstance", args[0], args[1]))
+            a = args[0]
+            if a[0] == "rec":
+                fn = self.rec_attrs.get((a[1], "__isinstance__"))
+                if fn is None:
+                    raise Unsupported(f"isinstance on {a[1]} record")
+                return k(fn(a[2], args[1]))
+            raise Unsupported("isinstance on non-record")
         if name in ("int", "bool") and len(args) == 1:
             return k(args[0])
         raise Unsupported(f"call of {name}() (line {e.lineno}) in {getattr(ctx, 'qual', '?')}")
